@@ -30,6 +30,7 @@ ALLOWED_AXIOMS = {"propext", "Classical.choice", "Quot.sound"}
 FORBIDDEN = [r"\bsorry\b", r"\badmit\b", r"^\s*axiom\s", r"native_decide", r"bv_decide",
              r"implemented_by", r"\bunsafe\s", r"maxHeartbeats\s+0\b", r"@\[extern"]
 NCPU = os.cpu_count() or 4
+SEARCH_S = float(os.environ.get("DDSV_SEARCH_S", "120"))   # budget of the failing-input search after a broken tie
 
 sys.path.insert(0, os.path.join(ROOT, "tools"))
 import props  # noqa: E402  per-property configuration
@@ -350,8 +351,59 @@ def run_one(pid, report_pid, tier, seed, replay_payload):
             continue
         violations.append(("oracle", n))
 
+    # search for a failing input (DESIGN §2.1 step 5): the tie or a proof obligation broke but the oracle found nothing
+    # on this tier's cases -> before reporting `no-failing-input-found`, run the property's oracle on the real
+    # library over further generated inputs (the thorough generator and fresh seeds, the kinds of the disagreeing
+    # cases first) within a time budget. A hit becomes the replay of an ordinary VIOLATION.
+    search = None
+    broke = bool(disagreements or pr["failures"] or pr["discharged"] != pr["obligations"])
+    if broke and not violations and replay_payload is None and SEARCH_S > 0:
+        t_s = time.time()
+        kinds = {cases[n].split(" ", 1)[0] for n, _, _, _ in disagreements}
+        tried = 0
+        rate = max(50.0, len(cases) * len(profiles) / max(0.5, time.time() - t0))   # cases/s seen so far (upper bound)
+        found = None
+        for rnd, (s_seed, s_tier) in enumerate([(seed, "thorough"), (seed + 1, "quick"), (seed + 2, "thorough")]):
+            left = SEARCH_S - (time.time() - t_s)
+            if left <= 5 or found:
+                break
+            rc, out, err = sh([bins[profiles[0]], "gen", pid, str(s_seed), s_tier])
+            if rc != 0:
+                break
+            have = set(cases)
+            extra = [l for l in out.splitlines() if l.strip() and l not in have]
+            extra.sort(key=lambda l: 0 if l.split(" ", 1)[0] in kinds else 1)    # stable: disagreeing kinds first
+            budget = int(rate * left / len(profiles))
+            extra = extra[:max(200, budget)]
+            for prof in profiles:
+                R, O = run_stream([bins[prof], "impl", pid], extra)
+                tried += len(extra)
+                for n in sorted(O):
+                    msgs = [f"[{prof}] {m}" for m in O[n]]
+                    if not matches_known((pid, report_pid), extra[n], msgs, known):
+                        found = (extra[n], msgs, prof, R.get(n))
+                        break
+                if found:
+                    break
+        search = {"ran": True, "cases_tried": tried, "seconds": round(time.time() - t_s, 1), "found": bool(found)}
+        if found:
+            case, msgs, prof, r = found
+            mres, _ = run_stream([DRIVER, pid], [case]) if os.path.exists(DRIVER) else ({}, {})
+            path = write_replay(report_pid, "oracle", {
+                "property": report_pid, "check": pid,
+                "kind": "implementation violates the property on this input (found by the search that follows a broken "
+                        "correspondence / proof obligation)",
+                "case": case, "oracle": msgs, "impl": {prof: r}, "model": mres.get(0),
+                "broken_correspondence_case": cases[disagreements[0][0]] if disagreements else None,
+                "proof_failures": pr["failures"],
+                "replay_cmd": f"./check.py {report_pid} --replay <this file>",
+            })
+            out_lines.append(f"VIOLATION property={report_pid} replay={path}")
+
     exit_code = 0
-    if violations:
+    if search and search["found"]:
+        exit_code = 1
+    elif violations:
         n = violations[0][1]
         path = write_replay(report_pid, "oracle", {
             "property": report_pid, "check": pid, "kind": "implementation violates the property on this input",
@@ -399,6 +451,7 @@ def run_one(pid, report_pid, tier, seed, replay_payload):
         "disagreements_checked": len(disagreements),
         "oracle_failures": len(oracle),
         "known_findings_matched": [k["id"] for k, _, _ in known_hits],
+        "failing_input_search": search or {"ran": False},
         "profiles": profiles,
         "class_histogram": dict(sorted(hist.items(), key=lambda kv: -kv[1])[:60]),
         "explanation": cfg.get("explanation", ""),
